@@ -13,9 +13,6 @@ import (
 // C13 — after a decided history of exchanges, each ending in a decided outcome, followed by a housekeeping tick
 // beyond every deadline, the connection retains nothing for them.
 
-func zzWaitWritten(s *zzSession, n int) {
-	symWaitUntil(func() bool { return len(s.written) >= n })
-}
 
 // one exchange; returns when it has ended
 func zzExchange(cc *Conn, s *zzSession, kind int, tok byte, now *int64) {
